@@ -52,12 +52,15 @@ LV3 == IF Tier = "quick" THEN { V3(3, 4, 12), V3(-9, 12, -20), V3(1, 2, 3) }
 LV4 == IF Tier = "quick" THEN { V4(3, 4, 12, 85), V4(-9, 12, -20, 65), V4(1, 2, 3, 4), V4(3, 4, 12, 13) }
        ELSE { V4(3, 4, 12, 85), V4(-9, 12, -20, 65), V4(1, 2, 3, 4), V4(3, 4, 12, 13), V4(12, -16, 15, 65),
               V4(3, 4, 12, 5), V4(0, 0, 3, 5) }
+LV4q == { V4(3, 4, 12, 85), V4(-9, 12, -20, 65), V4(1, 2, 3, 4), V4(3, 4, 12, 13) }   \* keeps mink_p4 inside 32 bits
 LVec(n) == IF n = 2 THEN LV2 ELSE IF n = 3 THEN LV3 ELSE LV4
 LB3 == IF Tier = "quick"
        THEN { <<R(1, 5), R(2, 5), R(2, 5)>>, <<R(-8, 91), R(12, 91), R(-24, 91)>>, <<I(0), I(0), R(4, 5)>> }
        ELSE { <<R(1, 5), R(2, 5), R(2, 5)>>, <<R(-8, 91), R(12, 91), R(-24, 91)>>, <<I(0), I(0), R(4, 5)>>,
               <<R(-12, 13), I(0), I(0)>>, <<R(8, 15), R(-4, 15), R(8, 15)>> }
-LBeta == IF Tier = "quick" THEN { R(3, 5), R(-5, 13) } ELSE { R(3, 5), R(-5, 13), R(4, 5), R(-24, 25), R(4900, 4901) }
+LBeta == IF Tier = "quick" THEN { R(3, 5), R(-5, 13) } ELSE { R(3, 5), R(-5, 13), R(4, 5), R(-24, 25) }
+\* ultra-relativistic stratum: single boosts only (two of them in a row overflow TLC's 32-bit integers)
+LBetaU == IF Tier = "quick" THEN LBeta ELSE LBeta \cup { R(4900, 4901), R(-40, 41) }
 LP4 == { V4(3, 4, 12, 85), V4(-9, 12, -20, 65), V4(0, 0, 3, 5) }
 LAng == IF Tier = "quick" THEN { <<R(3, 5), R(4, 5)>>, <<R(-5, 13), R(12, 13)>> }
         ELSE { <<R(3, 5), R(4, 5)>>, <<R(-5, 13), R(12, 13)>>, <<I(0), I(-1)>>, <<R(-8, 17), R(-15, 17)>> }
@@ -78,7 +81,7 @@ BoostLaws ==
                             Bi("dot", 6, 1, 2, None), Bi("dot", 7, 4, 5, None), U("tau2", 8, 1, None), U("tau2", 9, 4, None) >>,
            << Eq(6, 7), Eq(8, 9) >>) : a \in LV4, b \in LV4, w \in LB3 }
     \cup { Prog("mink_p4", << Ld(1, a), Ld(2, b), Ld(3, p), Bi("boost_p4", 4, 1, 3, None), Bi("boost_p4", 5, 2, 3, None),
-                            Bi("dot", 6, 1, 2, None), Bi("dot", 7, 4, 5, None) >>, << Eq(6, 7) >>) : a \in LV4, b \in LV4, p \in LP4 }
+                            Bi("dot", 6, 1, 2, None), Bi("dot", 7, 4, 5, None) >>, << Eq(6, 7) >>) : a \in LV4q, b \in LV4q, p \in LP4 }
     \cup { Prog("mink_axis", << Ld(1, a), Ld(2, b), U(BA(ax), 4, 1, <<k>>), U(BA(ax), 5, 2, <<k>>),
                             Bi("dot", 6, 1, 2, None), Bi("dot", 7, 4, 5, None) >>, << Eq(6, 7) >>) : a \in LV4, b \in LV4, ax \in Axes, k \in LBeta }
     \* undone by the opposite boost
@@ -94,7 +97,7 @@ BoostLaws ==
     \cup { Prog("p4_is_beta3", << Ld(1, a), Ld(2, p), Bi("boost_p4", 3, 1, 2, None), U("to_beta3", 4, 2, None), Bi("boost_beta3", 5, 1, 4, None),
                             Bi("boost", 6, 1, 2, None), Bi("boost", 7, 1, 4, None) >>, << Eq(3, 5), Eq(6, 3), Eq(7, 3) >>) : a \in LV4, p \in LP4 }
     \cup { Prog("axis_spellings", << Ld(1, a), U(BA(ax), 2, 1, <<k>>), Ld(3, AV(ax, k)), Bi("boost_beta3", 4, 1, 3, None),
-                            U(GA(ax), 5, 1, <<SGamma(k)>>) >>, << Eq(2, 4), Eq(2, 5) >>) : a \in LV4, ax \in Axes, k \in LBeta }
+                            U(GA(ax), 5, 1, <<SGamma(k)>>) >>, << Eq(2, 4), Eq(2, 5) >>) : a \in LV4, ax \in Axes, k \in LBetaU }
     \cup { Prog("cm_spellings", << Ld(1, a), Ld(2, w), Bi("boostCM_of_beta3", 3, 1, 2, None), Bi("boostCM_of", 4, 1, 2, None) >>,
                 << Eq(3, 4) >>) : a \in LV4, w \in LB3 }
     \* v.boostCM_of_p4(v) = (0, 0, 0, tau)
